@@ -28,6 +28,23 @@ def swap(prog, inventory):
             if fi.is_property or any("setter" in unparse(d) or "getter" in unparse(d) for d in fi.node.decorator_list):
                 _canon.PROPERTY_NAMES.add(fi.name)
         for ci in pr.classes.values():
+            # properties of this class and of its program base classes
+            props = set()
+            work, seen_ = [ci], set()
+            while work:
+                k = work.pop()
+                if k.qual in seen_:
+                    continue
+                seen_.add(k.qual)
+                props |= {mn for mn, mi in k.methods.items() if mi.is_property} | set(k.setters)
+                for b in k.bases:
+                    kind_, q_ = pr.resolve(k.module, b.split(".")[0]) if b and "." not in b else (None, None)
+                    if kind_ == "class" and q_ in pr.classes:
+                        work.append(pr.classes[q_])
+                    elif b not in ("object", "ABC", "Exception"):
+                        props.add("*unknown-base*")
+            for mi in list(ci.methods.values()) + list(ci.setters.values()):
+                mi.node._props = (props | _canon.PROPERTY_NAMES) if "*unknown-base*" in props else props
             if any(mn in ci.methods for mn in ("__setattr__", "__getattr__", "__getattribute__")) or "__slots__" in ci.class_attrs:
                 _canon.PROPERTY_NAMES.add("*")
                 for mi in ci.methods.values():
